@@ -56,21 +56,48 @@ Theorem C14_pos_hash_refuted :
   digest toy_oracles PoS f_c14_1_value = DPanic /\ has_bad_pos toy_oracles PoS f_c14_1_value = true.
 Proof. exact pos_hash_refuted. Qed.
 
-(* allocation.  Full statement (NOT proved in Coq, validated per case by the check: the model's meter and the real
-   peak of the counting allocator are both compared with alloc_bound on every input):
-     forall O tr t bs, vec elements non-empty on the wire ->
-       meter (tdecode O tr t bs 0) + scratch_reserve tr t <= alloc_bound t (nlen bs) = (vdepth t + 1) * 2 MiB + cfac t * nlen bs
-   Proved parts: a Vec reservation never exceeds 2 MiB nor the claimed length, whatever length prefix is sent; the
-   allocating leaves retain no more than they consumed (Program: plus 64 bytes of scratch per byte).
-   Missing: the induction through nested Vec with the RawVec doubling invariant. *)
-Theorem C14_alloc_bound_partial_vec_reservation : forall sz n, vec_cap0 sz n * sz <= MiB2 /\ vec_cap0 sz n <= n.
+(* ---- allocation: memory is proportional to the input, for every type of the universe ----
+   meter  = bytes requested from the allocator while decoding (cumulative, hence >= peak): Vec::with_capacity(
+            min(2 MiB / size_of::<T>(), len)), RawVec doubling on push, Bytes/String/Program copies, clvmr scratch;
+   cfac t = bytes of memory per input byte along the most expensive path (7 * mem_size T + cfac T for a Vec<T>,
+            65 for a Program, 70 for the generator tail, max over struct fields, 1 for plain data);
+   vdepth t = nesting depth of Vec (each level may hold ONE reservation of at most 2 MiB not yet backed by input
+            when decoding fails).
+   Step invariant (any start value a of the meter): on success at most cfac t bytes per CONSUMED byte and at least
+   min_size t bytes consumed; on failure at most cfac t per input byte plus vdepth t reservations.
+   Hypothesis: a CLVM serialization has at least one byte (prog_len_pos_hyp; true of clvmr). *)
+Theorem C14_alloc_step_invariant : forall O, prog_len_pos_hyp O -> forall tr t bs a,
+  match tdecode O tr t bs a with
+  | TOk v r a' => nlen r + min_size t <= nlen bs /\ a' <= a + cfac t * (nlen bs - nlen r)
+  | TErr a' => a' <= a + cfac t * nlen bs + vdepth t * MiB2
+  | TPanic => True
+  end.
+Proof. exact alloc_step_invariant. Qed.
+
+(* the bound of the property: peak <= meter + the single transient clvmr scratch reserve
+   <= alloc_bound t |bs| = (vdepth t + 1) * 2 MiB + cfac t * |bs|, whatever the bytes and the outcome *)
+Theorem C14_alloc_bounded : forall O, prog_len_pos_hyp O -> forall tr t bs,
+  meter_of (tdecode O tr t bs 0) + scratch_reserve tr t <= alloc_bound t (nlen bs).
+Proof. exact alloc_bounded_all. Qed.
+
+(* a Vec reservation never exceeds 2 MiB nor the claimed length, whatever length prefix is sent *)
+Theorem C14_vec_reservation_bounded : forall sz n, vec_cap0 sz n * sz <= MiB2 /\ vec_cap0 sz n <= n.
 Proof. exact vec_prealloc_bounded. Qed.
-Theorem C14_alloc_bound_partial_bytes : forall bs a v r a',
-  t_bytes bs a = TOk v r a' -> a' + nlen r + 4 <= a + nlen bs.
-Proof. exact t_bytes_alloc. Qed.
-Theorem C14_alloc_bound_partial_program : forall O tr bs a v r a',
-  t_prog O tr bs a = TOk v r a' -> a' <= a + (1 + clvm_per_byte) * (nlen bs - nlen r) /\ nlen r <= nlen bs.
-Proof. exact t_prog_alloc. Qed.
+
+(* where proportionality could fail, and why it does not for memory: a type with an EMPTY encoding occupies no
+   memory (a Vec of it allocates nothing) ... *)
+Theorem C14_empty_encoding_has_no_size : forall t, min_size t = 0 -> mem_size t = 0.
+Proof. exact min0_mem0. Qed.
+
+(* ... but the naive claim "the number of decoded elements (and the decoding time) is bounded by the input length"
+   is FALSE in the universe at large: four bytes decode to n unit values for every n < 2^32 (Rust: Vec<()>) *)
+Theorem C14_proportional_element_count_refuted : forall O tr n, n < 2 ^ 32 ->
+  decode O tr (Vec (Tup [])) (n2be 4 n) = Some (VList (repeat (VList []) (N.to_nat n)), []).
+Proof. exact zero_width_vec_unbounded_count. Qed.
+
+(* no type translated from the Rust source on this run contains a Vec of zero-width elements *)
+Theorem C14_no_zero_width_vec_in_translated_types : forallb (fun p => vec_elems_consume (snd p)) stream_types = true.
+Proof. exact vec_elems_consume_translated. Qed.
 
 (* the reservation limit used by the model is the one in the Rust source of this run *)
 Theorem C14_vec_limit_is_translated : MiB2 = vec_prealloc_limit_bytes.
